@@ -21,6 +21,9 @@ type W struct {
 	bw    *bufio.Writer
 	Path  string
 	Lines int
+	// LastOp is the last request line ("OP ...") written: the request a stream was executing when an
+	// oracle fired or the library panicked.
+	LastOp string
 }
 
 func NewW(path string) *W {
@@ -35,6 +38,9 @@ func NewW(path string) *W {
 }
 
 func (w *W) L(format string, args ...any) {
+	if strings.HasPrefix(format, "OP ") {
+		w.LastOp = fmt.Sprintf(format, args...)
+	}
 	fmt.Fprintf(w.bw, format, args...)
 	w.bw.WriteByte('\n')
 	w.Lines++
